@@ -187,6 +187,15 @@ pub fn gen_case(prop: &str, seed: u64, idx: u64, tier: &str) -> AnyCase {
         // (uncontrolled; the oracle - exact read-back - does not depend on the schedule)
         case.mt_threads = rng.range(1, 16) as u8;
     }
+    if matches!(prop, "C01" | "C02" | "C06" | "C07" | "C08" | "C09") && case.mt_threads == 0 && rng.chance(1, 20) {
+        // F5 inside the content checks: one sink operation fails once. The write may fail (whether it must is C14's
+        // business, such runs are skipped here) - but if it reports success, the file has to be right all the same
+        case.sink.fail = Some(crate::model::FailOp {
+            kind: rng.pick(&["write", "write", "write", "flush", "seek"]).to_string(),
+            index: rng.below(48) as usize,
+            sticky: false,
+        });
+    }
     AnyCase::Pipe(case)
 }
 
